@@ -188,10 +188,10 @@ def _rename_step(bits, pair):
     nothing else does.
     """
     cmds = [("create", n) for i, n in enumerate(UNIVERSE) if (bits >> i) & 1] + [("rename",) + PAIRS[pair]]
-    _run_cmds(cmds, 0, "rename_step")
+    _run_cmds(cmds, 0, "rename_step", probes=[("", "*"), ("", "%"), ("", "%/%")])
 
 
-def _run_cmds(cmds, rs, tag):
+def _run_cmds(cmds, rs, tag, probes=None):
     w = World(db="sqlite")
     inbox = w.mailbox("inbox", [1], [1], {"Seen": {1}}, contents=[b"m"], mtimes=[5])
     S = w.session("S")
@@ -231,32 +231,35 @@ def _run_cmds(cmds, rs, tag):
             w.shutdown()
             return
         models = nxt
-    # probes
-    for j, (ref, pat) in enumerate(PROBES):
-        for lsub in (False, True):
-            word = "LSUB" if lsub else "LIST"
-            r = w.issue(S, f'p{j} {word} "{ref}" "{pat}"')
-            lines = S.new_lines()
-            got = _parse_list(lines, word)
-            ok = False
-            exps = []
-            for m in models:
-                exp = m.listing(ref, pat, lsub=lsub)
-                exps.append(exp)
-                if exp == got:
-                    ok = True
-            if not ok and ref.endswith("/"):
-                # known: the parser normalises the reference and drops its trailing hierarchy delimiter
-                alt = models[0].listing(ref.rstrip("/"), pat, lsub=lsub)
-                check(got != alt, "C17/history/list_reference_loses_trailing_delimiter", probe=f"{word} {ref!r} {pat!r}", got=sorted(x[0] for x in got), expected=sorted(x[0] for x in exps[0]))
-            if not ok:
-                exp = exps[0]
-                gn, en = {x[0] for x in got}, {x[0] for x in exp}
-                check(gn == en, f"C17/{tag}/listed_names_differ_from_model", probe=f"{word} {ref!r} {pat!r}", got=sorted(gn), expected=sorted(en), history=repr(cmds))
-                ga, ea = dict(got), dict(exp)
-                for nm in sorted(gn):
-                    check(("\\Noselect" in ga[nm]) == ("\\Noselect" in ea[nm]), f"C17/{tag}/noselect_attribute_differs_from_model", name=nm, probe=f"{word} {ref!r} {pat!r}", history=repr(cmds))
-                    check(ga[nm] == ea[nm], f"C17/{tag}/children_attribute_differs_from_model", name=nm, got=sorted(ga[nm]), expected=sorted(ea[nm]), probe=f"{word} {ref!r} {pat!r}", history=repr(cmds))
+    allp = list(probes or PROBES)
+    def run_probes(plist):
+        for j, (ref, pat) in enumerate(plist):
+            for lsub in (False, True):
+                word = "LSUB" if lsub else "LIST"
+                r = w.issue(S, f'p{j} {word} "{ref}" "{pat}"')
+                lines = S.new_lines()
+                got = _parse_list(lines, word)
+                ok = False
+                exps = []
+                for m in models:
+                    exp = m.listing(ref, pat, lsub=lsub)
+                    exps.append(exp)
+                    if exp == got:
+                        ok = True
+                if not ok and ref.endswith("/"):
+                    # known: the parser normalises the reference and drops its trailing hierarchy delimiter
+                    alt = models[0].listing(ref.rstrip("/"), pat, lsub=lsub)
+                    check(got != alt, "C17/history/list_reference_loses_trailing_delimiter", probe=f"{word} {ref!r} {pat!r}", got=sorted(x[0] for x in got), expected=sorted(x[0] for x in exps[0]))
+                if not ok:
+                    exp = exps[0]
+                    gn, en = {x[0] for x in got}, {x[0] for x in exp}
+                    check(gn == en, f"C17/{tag}/listed_names_differ_from_model", probe=f"{word} {ref!r} {pat!r}", got=sorted(gn), expected=sorted(en), history=repr(cmds))
+                    ga, ea = dict(got), dict(exp)
+                    for nm in sorted(gn):
+                        check(("\\Noselect" in ga[nm]) == ("\\Noselect" in ea[nm]), f"C17/{tag}/noselect_attribute_differs_from_model", name=nm, probe=f"{word} {ref!r} {pat!r}", history=repr(cmds))
+                        check(ga[nm] == ea[nm], f"C17/{tag}/children_attribute_differs_from_model", name=nm, got=sorted(ga[nm]), expected=sorted(ea[nm]), probe=f"{word} {ref!r} {pat!r}", history=repr(cmds))
+
+    run_probes([p for p in allp if not p[0].endswith("/")])
     # a refused command leaves the tree on disk as the model says: directories == model names
     m = models[0]
     dirs = sorted(p[len("/fake/mail/") :] for p in TREE.dirs if p.startswith("/fake/mail/") and TREE.dirs[p].is_link_to is None)
@@ -267,12 +270,14 @@ def _run_cmds(cmds, rs, tag):
         check(t.done() and t.exception() is None, f"C17/{tag}/listed_mailbox_cannot_be_opened", name=name, history=repr(cmds))
         if len(models) == 1:
             check(len(t.result().mailbox.keys()) == b["msgs"], f"C17/{tag}/message_count_differs_from_model", name=name, got=len(t.result().mailbox.keys()), expected=b["msgs"], history=repr(cmds))
+    # last: probes whose reference ends in the delimiter (they can end the path with the recorded finding)
+    run_probes([p for p in allp if p[0].endswith("/")])
     w.shutdown()
 
 
 def jobs(tier):
     q = tier == "quick"
-    T = 300 if q else 1200
+    T = 600 if q else 1200
     js = [{"name": "patterns", "fn": "patterns", "kind": "py", "params": {"maxlen": 3 if q else 4, "refs": ["", "a/"]}, "timeout": 600 if q else 3000}]
     if q:
         for c1 in range(20):
@@ -283,8 +288,8 @@ def jobs(tier):
             js.append({"name": f"history[k=3,c1={c1}]", "fn": "history", "params": {"k": 3, "c1": c1, "restart": False}, "timeout": 3000, "per_path": 120, "unblock": UNBLOCK})
             js.append({"name": f"history[k=2,restart,c1={c1}]", "fn": "history", "params": {"k": 2, "c1": c1, "restart": True}, "timeout": T, "per_path": 120, "unblock": UNBLOCK})
     for pair in range(len(PAIRS)):
-        for lo in range(0, 128, 32):
-            js.append({"name": f"rename_step[{PAIRS[pair][0]}->{PAIRS[pair][1]},{lo}]", "fn": "rename_step", "params": {"pair": pair, "lo": lo, "hi": lo + 32}, "timeout": T if q else 1200, "per_path": 120, "unblock": UNBLOCK})
+        for lo in range(0, 128, 16):
+            js.append({"name": f"rename_step[{PAIRS[pair][0]}->{PAIRS[pair][1]},{lo}]", "fn": "rename_step", "params": {"pair": pair, "lo": lo, "hi": lo + 16}, "timeout": T if q else 1200, "per_path": 120, "unblock": UNBLOCK})
     return js
 
 
